@@ -64,6 +64,7 @@ def check(repo, tier="quick"):
         "with a reference engine on a pattern corpus."
     )
     res.rule("C18.f", "bug patterns with zero expected instances in this property's modules: swapped same-named arguments, lower-bound guard followed by a decrement of the guarded value, presence of a dictionary entry decided by truthiness; the pattern module keeps no state between calls (no cache of parsed patterns or automata)")
+    res.rule("C18.g", "the pattern parser builds the tree the reference grammar gives (right-to-left): each item becomes Symbol / Star(item) / Concatenation(item, Star(item)) / Union(item, None) according to its modifier; an item is prepended to everything parsed so far with Concatenation(item, rest); a bar makes Union(<parse of what is to its left>, <everything parsed so far>); the accumulated tree is what is returned")
     res.rule("C18.a", "each from_ast gadget: (i) black-box language = constructor language, (ii) edges touch sub-automata only at start(in)/final(out), (iii) returned start has no incoming / final no outgoing added edge")
     res.rule("C18.b", "NFANode.add_transition inserts exactly one directed edge self -> dest")
     res.rule("C18.c", "simulation shape: follow = closure then symbol step; match_symbol unions symbol and wildcard steps over all current states and leaves the state untouched on failure; is_complete tests the final node in the closure or an end-of-sequence edge")
@@ -162,6 +163,8 @@ def check(repo, tier="quick"):
         exhaustive(res, gadgets, m)
     from .. import lints as _lints
 
+    rule_parser(repo, res, m)
+    res.floor("C18.g", 6)
     _lints.rule(repo, res, "C18.f", ['symbol_re'])
     from .. import globals_state as _gs
 
@@ -399,3 +402,35 @@ def exhaustive(res, gadgets, m, max_nodes=8):
                 bad = (t, w1, w2)
                 break
         res.check(bad is None, "C18.e", "exhaustive:trees-of-%d-nodes" % n, where, "with directed epsilon edges the extracted construction differs from the reference on `%s` (%s %s)" % (_show(bad[0]), "accepts" if bad[1] is not None else "rejects", list(bad[1] if bad[1] is not None else bad[2])) if bad else "", by="%d pattern trees, composed gadgets = reference" % len(trees))
+
+
+def rule_parser(repo, res, m):
+    from ..core import pfind, pall, pmatch
+
+    fn = m.funcs.get("parse_expression")
+    if fn is None:
+        raise AnalysisError("anchor vanished: symbol_re.parse_expression")
+    where = "%s:parse_expression" % m.rel
+    tk = fn.args.args[0].arg
+    rets = [r for r in ast.walk(fn) if isinstance(r, ast.Return)]
+    A = dotted(rets[0].value) if len(rets) == 1 and fn.body[-1] is rets[0] else None
+    res.check(A is not None, "C18.g", "parser:returns-the-accumulated-tree", where, "parse_expression must end with a single `return <accumulated tree>`", by="return %s" % A)
+    n, e = pfind("X_n = Symbol(%s.pop(-1)[1])" % tk, fn)
+    N = e["X_n"] if n is not None else None
+    res.check(N is not None, "C18.g", "parser:symbol-item", where, "a string token must become Symbol(<its text>)", by="%s = Symbol(tokens.pop(-1)[1])" % N)
+    if A is None or N is None:
+        return
+    checks = [
+        ("parser:bar-joins-left-parse-with-everything-so-far", "%s = Union(parse_expression(%s), %s)" % (A, tk, A), "a bar must build Union(parse_expression(tokens), <everything parsed so far>): using only the most recent item drops the rest of an unparenthesised right-hand alternative"),
+        ("parser:item-prepended-to-rest", "if %s is None:\n    %s = %s\nelse:\n    %s = Concatenation(%s, %s)" % (A, A, N, A, N, A), "each item must be prepended to the accumulated tree with Concatenation(item, rest) (tokens are consumed right to left)"),
+        ("parser:star", "%s = Star(%s)" % (N, N), "`*` must wrap the item in Star"),
+        ("parser:plus", "%s = Concatenation(%s, Star(%s))" % (N, N, N), "`+` must build Concatenation(item, Star(item))"),
+        ("parser:optional", "%s = Union(%s, None)" % (N, N), "`?` must build Union(item, None)"),
+        ("parser:group", "%s = parse_expression(%s)" % (N, tk), "a parenthesised group must become the parse of its contents"),
+    ]
+    for key, pat, why in checks:
+        hits = pall(pat, fn)
+        res.check(len(hits) == 1, "C18.g", key, where, "%s (found %d statement(s) of the form `%s`)" % (why, len(hits), pat.replace("\n", " ")), by=pat.replace("\n", " "))
+    # nothing else assigns the accumulated tree
+    stores = [a for a in ast.walk(fn) if isinstance(a, ast.Assign) and dotted(a.targets[0]) == A]
+    res.check(len(stores) == 4, "C18.g", "parser:no-other-store-into-the-tree", where, "the accumulated tree must be assigned only by its initialisation to None, the bar rule and the two arms of the prepend rule (found %d stores)" % len(stores), by="4 stores")
